@@ -33,6 +33,9 @@ def run(chk, F):
     chk.guard("keyword-table", "datepatterns.txt", lambda: keywords(chk, F))
     chk.guard("scale-constants", "to/from_duration", lambda: scales(chk, F))
     chk.guard("offset-arithmetic", "parse_date", lambda: offset_arith(chk, F))
+    import castaudit
+    chk.guard("no-silent-wrap", "cast audit", lambda: castaudit.run(chk, F, "C14"))
+    chk.floor("no-silent-wrap", 12, "(date-field casts in parse_date and DateReply::new)")
 
 
 def offset_gate(chk, F):
